@@ -31,7 +31,8 @@ def _case(draw):
 
 
 def strategy(tier):
-    return _case()
+    # half of the programs serve timers that fall on one virtual instant in an order decided by a generated seed
+    return st.builds(lambda c, tie: dict(c, tie=tie) if tie else c, _case(), st.one_of(st.just(0), st.integers(1, 10 ** 6)))
 
 
 def interfered(c):
